@@ -128,7 +128,7 @@ Proof. exact ex_parent_ordered_hyps. Qed.
 Print Assumptions parent_ordered_hypotheses_satisfiable.
 
 Example certificate_hypotheses_satisfiable :
-  walk_ok (length w_xyz) (map norm_bond w_bonds) (tree_order (length w_xyz) (map norm_bond w_bonds)) = true /\
+  walk_ok (length w_xyz) (map norm_bond w_bonds) (pfb_walk (length w_xyz) (map norm_bond w_bonds)) = true /\
   makes_whole w_box 300 1 w_xyz (fun x => match x with 1%nat => (1, 0, 0) | _ => (0, 0, 0) end) (map norm_bond w_bonds).
 Proof. exact ex_certificate. Qed.
 Print Assumptions certificate_hypotheses_satisfiable.
